@@ -188,6 +188,9 @@ class Model:
         raise ValueError(op)
 
 
+CALLS = [0]
+
+
 def call(watch, op, arg):
     try:
         if op == 'enter':
@@ -195,9 +198,15 @@ def call(watch, op, arg):
         elif op == 'exit':
             v = watch.__exit__(None, None, None)
         elif op == 'elapsed':
-            v = watch.elapsed() if arg is None else watch.elapsed(maximum=arg)
+            # positionally or by keyword (alternating with the call count)
+            CALLS[0] += 1
+            v = watch.elapsed() if arg is None else (
+                watch.elapsed(arg) if CALLS[0] % 2 else
+                watch.elapsed(maximum=arg))
         elif op == 'leftover':
-            v = watch.leftover(return_none=bool(arg))
+            CALLS[0] += 1
+            v = watch.leftover(bool(arg)) if CALLS[0] % 2 else \
+                watch.leftover(return_none=bool(arg))
         elif op == 'splits':
             v = watch.splits
         else:
@@ -325,6 +334,7 @@ class C13(Check):
         tu.now = clock.read
         trans = set()
         del HANDED_OUT[:]
+        CALLS[0] = 0
         try:
             watch = tu.StopWatch(duration=case['duration'])
             model = Model(case['duration'])
